@@ -6,10 +6,10 @@
    the output equals the layout of Cts_spec.v computed from plain CBC / ECB of the zero-padded
    message; |ciphertext| = |message| (the output buffer keeps its length).
    The CS3 statements hold for the code after the repair of finding F1 (fix: commit in /repo).
-   PARTIAL: the six decryption bodies ("decryption inverts each") are not proved here yet; they are
-   covered by the correspondence and by the implementation-side predicates of gen/props/c05.py
-   (decryption of the standard's ciphertext) and gen/props/c01.py. *)
-From BM Require Import Outcome Cipher Plumbing Spec Cts Cts_mem Cts_spec Cts_cs_proofs.
+   Decryption inverts each (C05_*_dec theorems): for a cipher with D (E x) = x, any memory (in place or
+   buffer-to-buffer, any output contents) whose source side holds the standard's ciphertext layout is
+   decrypted by the corresponding body to exactly the message; no panic, no error. *)
+From BM Require Import Outcome Cipher Plumbing Spec Cts Cts_mem Cts_spec Cts_cs_proofs Cts_dec_proofs.
 
 Theorem C05_cbc_cs1_enc : forall (C : cipher), cipher_wf C -> forall iv m blocks tail,
   length iv = c_bs C -> msg_mem C m blocks tail ->
@@ -43,6 +43,54 @@ Theorem C05_ecb_cs3_enc : forall (C : cipher), cipher_wf C -> forall m blocks ta
   exists m', ecb_cs3_enc C m = Ok m' /\ m_out m' = ecb_cs3_spec (c_bs C) (c_E C) blocks tail.
 Proof. exact ecb_cs3_enc_ok. Qed.
 Print Assumptions C05_ecb_cs3_enc.
+
+(* ---- decryption inverts each ---- *)
+Theorem C05_cbc_cs1_dec : forall (C : cipher), cipher_wf C -> DE_id C -> forall iv m (blocks : list block) (tail : list N),
+  length iv = c_bs C -> all_len (c_bs C) blocks -> 1 <= length blocks -> length tail < c_bs C ->
+  mwf m -> msrc m = cbc_cs1_spec (c_bs C) (c_E C) iv blocks tail ->
+  exists m', cbc_cs1_dec C iv m = Ok m' /\ m_out m' = concat blocks ++ tail.
+Proof. exact cbc_cs1_roundtrip. Qed.
+Print Assumptions C05_cbc_cs1_dec.
+
+Theorem C05_cbc_cs2_dec : forall (C : cipher), cipher_wf C -> DE_id C -> forall iv m (blocks : list block) (tail : list N),
+  length iv = c_bs C -> all_len (c_bs C) blocks -> 1 <= length blocks -> length tail < c_bs C ->
+  mwf m -> msrc m = cbc_cs2_spec (c_bs C) (c_E C) iv blocks tail ->
+  exists m', cbc_cs2_dec C iv m = Ok m' /\ m_out m' = concat blocks ++ tail.
+Proof. exact cbc_cs2_roundtrip. Qed.
+Print Assumptions C05_cbc_cs2_dec.
+
+Theorem C05_cbc_cs3_dec : forall (C : cipher), cipher_wf C -> DE_id C -> forall iv m (blocks : list block) (tail : list N),
+  length iv = c_bs C -> all_len (c_bs C) blocks -> 1 <= length blocks -> length tail < c_bs C ->
+  mwf m -> msrc m = cbc_cs3_spec (c_bs C) (c_E C) iv blocks tail ->
+  exists m', cbc_cs3_dec C iv m = Ok m' /\ m_out m' = concat blocks ++ tail.
+Proof. exact cbc_cs3_roundtrip. Qed.
+Print Assumptions C05_cbc_cs3_dec.
+
+Theorem C05_ecb_cs1_dec : forall (C : cipher), cipher_wf C -> DE_id C -> forall m (blocks : list block) (tail : list N),
+  all_len (c_bs C) blocks -> 1 <= length blocks -> length tail < c_bs C ->
+  mwf m -> msrc m = ecb_cs1_spec (c_bs C) (c_E C) blocks tail ->
+  exists m', ecb_cs1_dec C m = Ok m' /\ m_out m' = concat blocks ++ tail.
+Proof. exact ecb_cs1_roundtrip. Qed.
+Print Assumptions C05_ecb_cs1_dec.
+
+Theorem C05_ecb_cs2_dec : forall (C : cipher), cipher_wf C -> DE_id C -> forall m (blocks : list block) (tail : list N),
+  all_len (c_bs C) blocks -> 1 <= length blocks -> length tail < c_bs C ->
+  mwf m -> msrc m = ecb_cs2_spec (c_bs C) (c_E C) blocks tail ->
+  exists m', ecb_cs2_dec C m = Ok m' /\ m_out m' = concat blocks ++ tail.
+Proof. exact ecb_cs2_roundtrip. Qed.
+Print Assumptions C05_ecb_cs2_dec.
+
+Theorem C05_ecb_cs3_dec : forall (C : cipher), cipher_wf C -> DE_id C -> forall m (blocks : list block) (tail : list N),
+  all_len (c_bs C) blocks -> 1 <= length blocks -> length tail < c_bs C ->
+  mwf m -> msrc m = ecb_cs3_spec (c_bs C) (c_E C) blocks tail ->
+  exists m', ecb_cs3_dec C m = Ok m' /\ m_out m' = concat blocks ++ tail.
+Proof. exact ecb_cs3_roundtrip. Qed.
+Print Assumptions C05_ecb_cs3_dec.
+
+(* |ciphertext| = |message| and back: whenever any of the twelve bodies returns Ok the buffer keeps its length *)
+Theorem C05_length : forall C v enc iv m m', cts_run C v enc iv m = Ok m' -> mlen m' = mlen m.
+Proof. exact cts_length_preserved. Qed.
+Print Assumptions C05_length.
 
 (* the layouts, spelled out on C_1 .. C_{n-2}, C_{n-1} = a, C_n = b *)
 Theorem C05_layouts : forall (pre : list block) a b d,
